@@ -273,6 +273,19 @@ SPECIAL_CLASSES = {"MultiReg", "AsyncResetSynchronizer", "Memory", "Instance", "
 
 
 _KNOWN = [False, None]
+RECORD_IR = None        # set to a dict by tools/gen_irnames.py: FX records its IR fingerprints instead of resolving renames
+_IRT = [None]
+
+
+def _irtable():
+    if _IRT[0] is None:
+        import json
+        try:
+            with open(os.path.join(os.path.dirname(os.path.abspath(__file__)), "irnames.json")) as f:
+                _IRT[0] = json.load(f)
+        except FileNotFoundError:
+            _IRT[0] = {}
+    return _IRT[0]
 
 
 def _known_locals():
@@ -389,6 +402,7 @@ class FX:
             r = self._run_function(fn, env)
             self.returns.append(r)
         self._dealias_new_intermediates(ctx)
+        self._resolve_ir_renames(ctx, entries)
         ctx.analysed["classes" if cls else "functions"].add(f"{rel}::{self.scope}")
         ctx.analysed["ir_records"] += len(self.assigns) + len(self.trans) + len(self.insts)
         ctx.analysed["fsms"] += len(self.fsms)
@@ -466,6 +480,146 @@ class FX:
         for nm in subst:
             self.decl.pop(nm, None)
             ctx.note(f"{self.rel}::{self.scope}: new 1-bit intermediate `{nm}` = {norm(subst[nm].value)[:80]} substituted where it is read")
+
+    # ------------------------------------------------------------------ renamed local objects, resolved on the IR
+    def _ir_fingerprints(self, names):
+        """{name: Counter(features)} for declared local objects: how each is driven, what it drives, what it guards, how it is
+        built -- read off the extracted IR (comprehensions unrolled, helpers inlined, getattr resolved), with every declared
+        local masked.  Independent of the local's name and of most of the surrounding Python."""
+        from collections import Counter
+        from .core import cnorm
+        local = {n for n in self.decl if n.isidentifier()}
+        names = set(names)
+        cache = {}
+
+        def mask(e):
+            if not isinstance(e, ast.AST):
+                return "?"
+            k = id(e)
+            if k not in cache:
+                m = copy.deepcopy(e)
+                for x in ast.walk(m):
+                    if isinstance(x, ast.Name) and x.id in local:
+                        x.id = "§"
+                try:
+                    cache[k] = cnorm(m, eqsym=True)[:160]
+                except Exception:
+                    cache[k] = "?"
+            return cache[k]
+
+        def occ(e):
+            return {x.id for x in ast.walk(e) if isinstance(x, ast.Name) and x.id in names} if isinstance(e, ast.AST) else set()
+        fp = {n: Counter() for n in names}
+        for a in self.assigns:
+            dom = a.domain.split(":")[0] + ("@" + str(a.state[1]) if a.state else "")
+            mt, mv = mask(a.target), mask(a.value)
+            for n in occ(a.target):
+                fp[n][f"T|{dom}|{mt}<={mv}"] += 1
+                fp[n][f"t|{mt}"] += 1
+            for n in occ(a.value):
+                fp[n][f"V|{dom}|{mt}<={mv}"] += 1
+                fp[n][f"v|{mt}"] += 1
+            for c, _ in a.guards:
+                for n in occ(c):
+                    fp[n][f"g|{mt}"] += 1
+        for c in self.conns:
+            k = c["conn"]
+            ms, md = mask(k.src), mask(k.dst)
+            for n in occ(k.src) | occ(k.dst):
+                fp[n][f"C|{ms}->{md}"] += 1
+        for t in self.trans:
+            for c, _ in t.guards:
+                for n in occ(c):
+                    fp[n][f"x|{t.src}->{t.dst}"] += 1
+        for i in self.insts:
+            if i.call is None:
+                continue
+            for k, a in enumerate(i.call.args):
+                for n in occ(a):
+                    fp[n][f"I|{i.cls}|{k}|{mask(a)}"] += 1
+            for kw in i.call.keywords:
+                for n in occ(kw.value):
+                    fp[n][f"I|{i.cls}|{kw.arg}|{mask(kw.value)}"] += 1
+        for n in names:
+            d = self.decl.get(n)
+            if d:
+                fp[n][f"D|{d[0]}|{mask(d[1]) if isinstance(d[1], ast.AST) else ''}"] += 1
+        return fp
+
+    def _resolve_ir_renames(self, ctx, entries):
+        key = f"{self.rel}::{self.scope}::{','.join(entries) if self.cls_name else ''}"
+        if RECORD_IR is not None:
+            names = [n for n in self.decl if n.isidentifier()]
+            RECORD_IR[key] = {n: dict(c) for n, c in self._ir_fingerprints(names).items() if c}
+            return
+        if os.environ.get("LXS_NO_RENAME"):
+            return
+        pinned = _irtable().get(key)
+        if not pinned:
+            return
+        used = {x.id for a in self.assigns for e in (a.target, a.value) if isinstance(e, ast.AST) for x in ast.walk(e) if isinstance(x, ast.Name)}
+        missing = [n for n in pinned if n not in self.decl and n not in used]
+        extra = [n for n in self.decl if n.isidentifier() and n not in pinned]
+        if not missing or not extra:
+            return
+        from . import names as _names
+        fp = self._ir_fingerprints(extra)
+        cands = []
+        for m in missing:
+            scored = sorted(((_names.similarity(pinned[m], fp[e]), e) for e in extra), reverse=True)
+            if scored and scored[0][0] >= 0.45 and (len(scored) == 1 or scored[0][0] - scored[1][0] >= 0.2):
+                cands.append((scored[0][0], scored[0][1], m))
+        mp = {}
+        for sc, e, m in sorted(cands, reverse=True):
+            if e in mp or m in mp.values():
+                continue
+            mp[e] = m
+        if not mp:
+            return
+
+        def ren(e):
+            if isinstance(e, ast.AST):
+                for x in ast.walk(e):
+                    if isinstance(x, ast.Name) and x.id in mp:
+                        x.id = mp[x.id]
+            return e
+        import re as _re
+        pat = _re.compile(r"\b(" + "|".join(_re.escape(k) for k in mp) + r")\b")
+
+        def rens(t):
+            return pat.sub(lambda m_: mp[m_.group(1)], t) if isinstance(t, str) else t
+        for a in self.assigns:
+            ren(a.target), ren(a.value)
+            for c, _ in a.guards:
+                ren(c)
+            a.pyguards = [(rens(c), p) for c, p in a.pyguards]
+            a._t = a._v = None
+        for t in self.trans:
+            for c, _ in t.guards:
+                ren(c)
+        for c in self.conns:
+            ren(c["conn"].src), ren(c["conn"].dst)
+            for g, _ in c["guards"]:
+                ren(g)
+        for i in self.insts:
+            i.name = rens(i.name)
+            if i.call is not None:
+                ren(i.call)
+        for f in self.fsms.values():
+            if getattr(f, "alias", None):
+                f.alias = rens(f.alias)
+            f.name = rens(f.name)
+        for e, m in mp.items():
+            if e in self.decl:
+                self.decl[m] = self.decl.pop(e)
+            if e in self.localdefs:
+                self.localdefs[m] = self.localdefs.pop(e)
+            ctx.note(f"{self.rel}::{self.scope}: local object `{e}` is taken for `{m}` (renamed; resolved on the extracted IR)")
+        for v in self.localdefs.values():
+            ren(v)
+        for d in self.decl.values():
+            if len(d) > 1 and isinstance(d[1], ast.AST):
+                ren(d[1])
 
     # ------------------------------------------------------------------ class structure
     def _lookup_class(self, name):
